@@ -178,6 +178,15 @@ def root_of(v):
             return v
 
 
+def norm(v):
+    """strip the write-epoch from loads so that two reads of the same location compare equal"""
+    if not isinstance(v, tuple):
+        return v
+    if v[0] == 'ld':
+        return ('ld', norm(v[1]))
+    return tuple(norm(x) if isinstance(x, tuple) else x for x in v)
+
+
 def mentions(v, pred):
     """does pred hold for some sub-term of v"""
     if pred(v):
@@ -190,7 +199,7 @@ def mentions(v, pred):
 
 class State(object):
     __slots__ = ('env', 'mem', 'known', 'neq', 'decided', 'events', 'assume', 'visits',
-                 'ver', 'wild', 'prev', 'uid', 'trace')
+                 'ver', 'wild', 'prev', 'uid', 'trace', 'escaped')
 
     def __init__(self):
         self.env = {}
@@ -206,6 +215,7 @@ class State(object):
         self.prev = None
         self.uid = [0]
         self.trace = []     # block labels
+        self.escaped = frozenset()   # fresh objects that were stored into pre-existing memory
 
     def fork(self):
         s = State()
@@ -222,6 +232,7 @@ class State(object):
         s.prev = self.prev
         s.uid = self.uid
         s.trace = list(self.trace)
+        s.escaped = self.escaped
         return s
 
 
@@ -455,6 +466,11 @@ class Explorer(object):
             for p_ in fn.params:
                 if p_.kind == 'reg':
                     st.env[p_.name] = ('p', fn.param_names.get(p_.name, p_.name))
+        if state is None and start is not None and start != fn.order[0]:
+            # exploring a region: local slots were created in the entry block
+            for ins_ in fn.blocks[fn.order[0]].instrs:
+                if ins_.op == 'alloca':
+                    st.env[ins_.res] = ('alloca', ins_.res)
         if env:
             st.env.update(env)
         if known:
@@ -552,6 +568,10 @@ class Explorer(object):
                     val = self.ev(ins.ops[0], st)
                     addr = self.ev(ins.ops[1], st)
                     st.mem[addr] = val
+                    if val[0] == 'call' and val[1] in self.FRESH:
+                        r_ = root_of(addr)
+                        if not (r_[0] == 'alloca' or (r_[0] == 'call' and r_[1] in self.FRESH and r_ not in st.escaped)):
+                            st.escaped = st.escaped | {val}
                     key = field_of(addr)
                     vkey = self._vkey(addr)
                     self._bump(st, vkey)
@@ -771,6 +791,7 @@ class Explorer(object):
                 s2.wild = st.wild + 1
                 s2.prev = saved_prev
                 s2.uid = st.uid
+                s2.escaped = st.escaped
                 s2.trace = list(saved_trace)
                 if ins.res:
                     s2.env[ins.res] = p.retval if p.retval is not None else ('undef',)
@@ -787,8 +808,13 @@ class Explorer(object):
             mods = self.mod_sets.get(name)
             if mods is None or indirect is not None:
                 st.wild += 1
-                # forget non-local memory facts
+                # forget non-local memory facts (fields of fresh objects that are still private
+                # to this path and are not handed to the callee keep their values)
                 for a in list(st.mem):
+                    r_ = root_of(a)
+                    private = r_[0] == 'call' and r_[1] in self.FRESH and r_ not in st.escaped and r_ not in args
+                    if private:
+                        continue
                     if a[0] != 'alloca' or any(x == a for x in args):
                         del st.mem[a]
                 # out-parameters: allocas passed by address are clobbered
